@@ -331,6 +331,20 @@ def stereo_labelings(rec, r, max_k=4, max_rounds=3):
                 new['al'] = new['al'] + [(n - 1, n1 - 1, n2 - 1, r.random() < .5)]
             new['id'] += '+p'
         out.append(new)
+    # partially specified stereo: exactly one of the k >= 2 elements labelled (a labelled centre next to an unlabelled, possibly
+    # constitutionally equivalent twin).  Appended last and without seeded draws so that the records above keep their identity.
+    if len(elems) >= 2:
+        for i, (kind, x) in enumerate(elems):
+            tet, ct, al = [], [], []
+            if kind == 't':
+                tet.append((x - 1, tuple(y - 1 for y in m.stereogenic_tetrahedrons[x]), True))
+            elif kind == 'c':
+                n1, n2 = m.stereogenic_cis_trans[x][:2]
+                ct.append((x[0] - 1, x[1] - 1, n1 - 1, n2 - 1, True))
+            else:
+                n1, n2 = m.stereogenic_allenes[x][:2]
+                al.append((x - 1, n1 - 1, n2 - 1, True))
+            out.append(dict(rec, tet=tet, ct=ct, al=al, id=rec['id'] + f'/only{i}'))
     return out
 
 
@@ -406,6 +420,7 @@ SPECIAL_SMILES = (
     '[CH2]C(C)(C)[CH2]', 'C1CC1[C@H](F)C1CC1', 'OC[C@@H](O)[C@H](O)[C@@H](O)CO', 'OC[C@@H](O)[C@@H](O)[C@@H](O)CO',
     'C12=C3[C@]14C[C@]23C4', 'C12=C3[C@]14C[C@@]23C4', 'C1CCCCCCC12CCCCCCC2', 'N1CCC2(CC1)CCNCC2', 'C1CC[Si]2(CC1)CCCCC2',
     'C1CC2(C1)CCC2', 'C1CCC2(C1)CCCC2', 'C1CCC2(CC1)OCCO2', 'C1CC2(C1)CC1(C2)CCC1',
+    'C[C@H](Cl)C(C)Cl', 'C[C@H]1CC(C)CNC1', 'F/C=C/C=CF', 'C[C@H](F)CCC(C)F', 'OC(=O)[C@H](O)C(O)C(O)=O', 'C[C@H](O)C(O)[C@@H](C)O',
 )
 
 
